@@ -253,7 +253,8 @@ class Buffer:
             return False
 
     def __hash__(self) -> int:
-        return self.content.__hash__()
+        # equal buffers must hash alike whatever their padding side: hash the left-padded content
+        return self.pad(padding=Padding.LEFT, inplace=False).content.__hash__()
     
     def __add__(self, other: 'Buffer') -> 'Buffer':
         if not isinstance(other, Buffer):
